@@ -131,6 +131,7 @@ type sim struct {
 	stabHeight map[int]int64
 	crashPlan  []crashPlan
 	crashesFired int
+	tainted      bool
 
 	// weights (depend on the property under check)
 	w weights
@@ -170,6 +171,11 @@ func (s *sim) fail(prop, oracle, format string, args ...any) {
 		}
 		s.r.Known = append(s.r.Known, v)
 		s.event("KNOWN %s/%s", prop, oracle)
+		if strings.HasPrefix(oracle, "own_votes_not_replayed") || strings.HasPrefix(oracle, "restart_failed") {
+			// a node that forgot its votes cannot re-gossip them and may be unable to sign again in those
+			// rounds: the rest of the run cannot decide liveness
+			s.tainted = true
+		}
 		return
 	}
 	s.r.Fail(prop, oracle, format, args...)
@@ -1113,7 +1119,7 @@ func (s *sim) checkLiveness() {
 		return
 	}
 	for _, n := range s.nodes {
-		if n.halted {
+		if n.halted || s.tainted {
 			// a node was lost to a (known) finding earlier in the run: liveness of the rest is not decidable
 			if s.r.Inconcl == "" {
 				s.r.Inconcl = "a node was lost to a known finding; liveness not evaluated"
